@@ -4,7 +4,7 @@
    with into_inner / handle drop, at the granularity of upgrade / entry / exit / release / try_unwrap. *)
 From Coq Require Import List NArith Bool Arith.
 Import ListNotations.
-Require Import MV.Common.Interleave MV.C20.Model MV.C20.Proofs MV.C20.Proofs2 MV.C20.Exec MV.C20.ExecProofs.
+Require Import MV.Common.Interleave MV.C20.Model MV.C20.Proofs MV.C20.Proofs2 MV.C20.Exec MV.C20.ExecProofs MV.C20.ProofsWalk2.
 Open Scope N_scope.
 
 Theorem C20_invariant_every_schedule : forall ps sched, wf ps ->
@@ -48,16 +48,9 @@ Theorem C20_dropped_iff_handle_dropped_when_done : forall ps c, wf ps -> reach p
 Proof. exact dropped_iff_handle_dropped_when_done. Qed.
 
 (* the executable property evaluated by the check, on the model's own run of ANY well-formed case
-   (programs + schedule, round-robin tail included): clauses (1)-(6) of Exec.spec_ok hold.  Clause
-   (7), the walk over the step trace that decides for each upgrade whether it had to succeed, is the
-   executable counterpart of C20_live_until_recovered / C20_inert_after; it is evaluated on every run
-   and not proved of the model here (so there is no single C20_spec_ok_on_model theorem). *)
-Theorem C20_spec_clauses_on_model_partial : forall c : case, wf (fst c) ->
-  let '(tr, rs0, done, dr, late) := run_case c in
-  late = false /\
-  forallb (forallb (fun x => match x with RRecovered i d => (i =? 0) && (d =? 0) | _ => true end)) rs0 = true /\
-  dr <= 1 /\
-  (has_res is_recovered rs0 = true -> dr = 0) /\
-  (has_res is_hdrop rs0 = true -> done = true -> dr = 1) /\
-  (has_res is_hdrop rs0 = false -> dr = 0).
-Proof. exact spec_clauses_on_model. Qed.
+   (programs + schedule, round-robin tail included): every clause of Exec.spec_ok holds, including
+   clause (7), the walk over the step trace that decides for each upgrade (site 2001) whether it had
+   to succeed from the FINAL per-thread results and the positions of the last 2004 / 2005 steps of the
+   full trace (proved in ProofsWalk2.v by a trace-indexed invariant, Common/InterleaveTrace.v). *)
+Theorem C20_spec_ok_on_model : forall c : case, wf (fst c) -> spec_ok c (run_case c) = true.
+Proof. exact spec_ok_on_model. Qed.
